@@ -92,17 +92,13 @@ theorem intoNames_cells {valid : JStr → Bool} {n : Nat} {names : Names} (h : n
   simp only [intoNames, h1, h2, h3]
   simp
 
-theorem commentOf_doc (indent : Nat) (d : JStr) (h : noBsN d = true) :
+theorem commentOf_doc (indent : Nat) (d : JStr) :
     commentOf { indent := indent, first := C_, fields := [escape d] } = some d := by
-  simp [commentOf, unescape_escape d h]
+  simp [commentOf, unescape_escape d]
 
-theorem setDoc_doc (indent : Nat) (d : JStr) (h : noBsN d = true) :
+theorem setDoc_doc (indent : Nat) (d : JStr) :
     setDoc none { indent := indent, first := C_, fields := [escape d] } = some (some d) := by
-  simp [setDoc, commentOf_doc indent d h]
-
-theorem docOk_noBsN {d : JStr} (h : docOk (some d) = true) : noBsN d = true := by
-  simp only [docOk, Bool.and_eq_true] at h
-  exact h.2
+  simp [setDoc, commentOf_doc indent d]
 
 theorem contains_append_single {K V : Type} [BEq K] [LawfulBEq K] (m : AList K V) (k k' : K) (v : V) :
     AList.contains k (m ++ [(k', v)]) = (AList.contains k m || k' == k) := by
@@ -131,7 +127,7 @@ theorem step_param {n d : Nat} {ctx : Method → AList JStr Class} (hctx : Metho
   simp only [paramOk, Bool.and_eq_true, decide_eq_true_eq] at hp
   have hlt : ¬ d < 2 := by omega
   simp only [step, hlt, if_false, if_true, hctx]
-  simp only [addParam, parseUsize_natDigits p.index hp.1.1, intoNames_cells hp.1.2, insertNew_new _ _ _ hnew]
+  simp only [addParam, parseUsize_natDigits p.index hp.1, intoNames_cells hp.2, insertNew_new _ _ _ hnew]
   rfl
 
 theorem run_param {n d : Nat} {ctx : Method → AList JStr Class} (hctx : MethodCtx ctx) {m : Method} {p : Param}
@@ -144,13 +140,11 @@ theorem run_param {n d : Nat} {ctx : Method → AList JStr Class} (hctx : Method
   cases doc with
   | none => rfl
   | some dd =>
-    simp only [paramOk, Bool.and_eq_true] at hp
-    have hb := docOk_noBsN hp.2
     simp only [docT, List.cons_append, List.nil_append]
     apply run_cons
     have hpc : MethodCtx ctx := hctx
     simp only [step, Nat.lt_irrefl, if_false, if_true, hctx]
-    simp only [inLastParam, modLastV_append_single, paramDoc, setDoc_doc 3 dd hb]
+    simp only [inLastParam, modLastV_append_single, paramDoc, setDoc_doc 3 dd]
     rfl
 
 theorem run_params {n : Nat} {ctx : Method → AList JStr Class} (hctx : MethodCtx ctx) (rest : List TLine) :
@@ -189,20 +183,19 @@ theorem run_field {n d : Nat} {k : Kind} {cctx : Class → AList JStr Class} (hc
       = some { depth := 2, kind := .field,
                classes := cctx { c with fields := c.fields ++ [((name, f.desc), { desc := f.desc, names := f.names, doc := none })] } } := by
     simp only [step, hlt, if_false, if_true, hctx]
-    simp only [addField, intoNames_cells hf.1.2, hname, insertNew_new _ _ _ hnew]
+    simp only [addField, intoNames_cells hf.2, hname, insertNew_new _ _ _ hnew]
     rfl
   rw [run_cons hstep]
   obtain ⟨desc, names, doc⟩ := f
   cases doc with
   | none => rfl
   | some dd =>
-    have hb := docOk_noBsN hf.2
     simp only [docT, List.cons_append, List.nil_append]
     apply run_cons
     have hfc := fieldCtx_mk hctx c c.fields (name, desc)
     simp only [step, Nat.lt_irrefl, if_false, if_true]
     rw [hfc]
-    simp only [fieldDoc, setDoc_doc 2 dd hb]
+    simp only [fieldDoc, setDoc_doc 2 dd]
     rfl
 
 theorem run_fields {n : Nat} {cctx : Class → AList JStr Class} (hctx : ClassCtx cctx) (rest : List TLine) :
@@ -253,7 +246,7 @@ theorem run_method {n d : Nat} {k : Kind} {cctx : Class → AList JStr Class} (h
                classes := cctx { c with methods := c.methods ++ [((name, m.desc), { desc := m.desc, names := m.names, doc := none, params := [] })] } } := by
     have hMF : ¬ M_ = F_ := by decide
     simp only [step, hlt, if_false, hMF, if_true, hctx]
-    simp only [addMethod, intoNames_cells hm.1.1.2, hname, insertNew_new _ _ _ hnew]
+    simp only [addMethod, intoNames_cells hm.1.2, hname, insertNew_new _ _ _ hnew]
     rfl
   rw [run_cons hstep]
   have hmc := methodCtx_mk hctx c c.methods (name, m.desc)
@@ -265,13 +258,12 @@ theorem run_method {n d : Nat} {k : Kind} {cctx : Class → AList JStr Class} (h
     cases hdd : m.doc with
     | none => rfl
     | some dd =>
-      have hb := docOk_noBsN (hdd ▸ hm.1.2)
       simp only [docT, List.cons_append, List.nil_append]
       apply run_cons
       have hCP : ¬ C_ = P_ := by decide
       simp only [step, Nat.lt_irrefl, if_false, hCP, if_true]
       rw [hmc]
-      simp only [methodDoc, setDoc_doc 2 dd hb]
+      simp only [methodDoc, setDoc_doc 2 dd]
       rfl
   rw [List.append_assoc, hdoc]
   -- the parameters
